@@ -131,13 +131,18 @@ pub enum Recipe {
     DependOn(u8, u8),
     Zip(u8, u8),
     Bind { lhs: u8, even: Rhs, odd: Rhs },
+    /// an `expert::Node` with one static dependency on `a` (added right after creation), an on-change edge callback
+    /// that keeps the child's value in a slot, a recompute function `inc(child value)` and an observability
+    /// callback; all three closures are instrumented user code (fault points, observer reads). Behaves like
+    /// `Map(inc, a)` for values and re-invocation.
+    Xp(u8),
 }
 
 impl Recipe {
     pub fn inputs(&self) -> Vec<u8> {
         match self {
             Recipe::Var(_) | Recipe::Const(_) => vec![],
-            Recipe::Map(_, a) | Recipe::MapRef(a) | Recipe::MapWithOld(a) => vec![*a],
+            Recipe::Map(_, a) | Recipe::MapRef(a) | Recipe::MapWithOld(a) | Recipe::Xp(a) => vec![*a],
             Recipe::Map2(_, a, b) | Recipe::DependOn(a, b) | Recipe::Zip(a, b) => vec![*a, *b],
             Recipe::MapN(v) | Recipe::Fold(v) => v.clone(),
             Recipe::Bind { lhs, even, odd } => {
@@ -161,6 +166,7 @@ impl Recipe {
             Recipe::DependOn(..) => "DependOn",
             Recipe::Zip(..) => "Zip",
             Recipe::Bind { .. } => "Bind",
+            Recipe::Xp(..) => "Xp",
         }
     }
     pub fn to_json(&self) -> Json {
@@ -175,6 +181,7 @@ impl Recipe {
             Recipe::Fold(v) => json!({"fold": v}),
             Recipe::DependOn(a, b) => json!({"depend_on": [a, b]}),
             Recipe::Zip(a, b) => json!({"zip": [a, b]}),
+            Recipe::Xp(a) => json!({"xp": a}),
             Recipe::Bind { lhs, even, odd } => {
                 json!({"bind": {"lhs": lhs, "even": even.to_json(), "odd": odd.to_json()}})
             }
@@ -199,6 +206,7 @@ impl Recipe {
             "mapn" => Recipe::MapN(us(v)?),
             "map_ref" => Recipe::MapRef(u(v)?),
             "map_with_old" => Recipe::MapWithOld(u(v)?),
+            "xp" => Recipe::Xp(u(v)?),
             "fold" => Recipe::Fold(us(v)?),
             "depend_on" => {
                 let a = us(v)?;
@@ -265,6 +273,9 @@ pub struct Alphabet {
     /// subscription handlers write `(delivered value + 1) mod 3` to this variable on every
     /// Initialised / Changed they receive (families keep max_subs = 1: no ordering question)
     pub handler_sets_var: Option<u8>,
+    /// observability callbacks of `Xp` nodes write `1` (became observed) / `0` (no longer observed) to this
+    /// variable; like every write made during a stabilise it must reach the graph only at the next one
+    pub obs_cb_sets_var: Option<u8>,
 }
 
 impl Default for Alphabet {
@@ -287,6 +298,7 @@ impl Default for Alphabet {
             observable: vec![],
             handler_self_unsub: false,
             handler_sets_var: None,
+            obs_cb_sets_var: None,
         }
     }
 }
@@ -299,7 +311,7 @@ impl Alphabet {
             "unsubscribe": self.unsubscribe, "state_unsubscribe": self.state_unsubscribe, "on_update": self.on_update,
             "observe_inner": self.observe_inner, "max_observers": self.max_observers, "max_subs": self.max_subs,
             "closures_read_observers": self.closures_read_observers, "observable": self.observable,
-            "handler_self_unsub": self.handler_self_unsub, "handler_sets_var": self.handler_sets_var,
+            "handler_self_unsub": self.handler_self_unsub, "handler_sets_var": self.handler_sets_var, "obs_cb_sets_var": self.obs_cb_sets_var,
         })
     }
     pub fn from_json(j: &Json) -> Option<Alphabet> {
@@ -321,6 +333,7 @@ impl Alphabet {
             closures_read_observers: b("closures_read_observers"),
             handler_self_unsub: b("handler_self_unsub"),
             handler_sets_var: j.get("handler_sets_var").and_then(|v| v.as_u64()).map(|x| x as u8),
+            obs_cb_sets_var: j.get("obs_cb_sets_var").and_then(|v| v.as_u64()).map(|x| x as u8),
             observable: j
                 .get("observable")
                 .and_then(|v| v.as_array())
@@ -337,6 +350,9 @@ pub struct Prog {
     pub precreated: u8,
     /// nodes observed from the start by an observer that is never dropped
     pub pinned: Vec<u8>,
+    /// nodes that already have an ordinary (droppable) observer each, all stabilised once, when the history
+    /// starts: saves the 1 + len actions every history would otherwise spend getting there
+    pub start_observed: Vec<u8>,
     pub alpha: Alphabet,
 }
 
@@ -347,6 +363,7 @@ impl Prog {
             nodes,
             precreated: n,
             pinned: vec![],
+            start_observed: vec![],
             alpha: Alphabet::default(),
         }
     }
@@ -366,7 +383,7 @@ impl Prog {
     /// depend_on (timestamp cutoff), no map_ref directly over map_with_old (DESIGN §6 C06)
     pub fn exact_ran(&self) -> bool {
         self.nodes.iter().all(|n| match &n.recipe {
-            Recipe::DependOn(..) => false,
+            Recipe::DependOn(..) | Recipe::Xp(..) => false,
             Recipe::MapRef(a) => !matches!(self.nodes[*a as usize].recipe, Recipe::MapWithOld(_)),
             _ => true,
         })
@@ -389,7 +406,7 @@ impl Prog {
                 j
             })
             .collect();
-        json!({"nodes": nodes, "precreated": self.precreated, "pinned": self.pinned, "alphabet": self.alpha.to_json()})
+        json!({"nodes": nodes, "precreated": self.precreated, "pinned": self.pinned, "start_observed": self.start_observed, "alphabet": self.alpha.to_json()})
     }
     pub fn from_json(j: &Json) -> Option<Prog> {
         let nodes = j
@@ -414,6 +431,11 @@ impl Prog {
                 .iter()
                 .filter_map(|v| v.as_u64().map(|x| x as u8))
                 .collect(),
+            start_observed: j
+                .get("start_observed")
+                .and_then(|v| v.as_array())
+                .map(|a| a.iter().filter_map(|v| v.as_u64().map(|x| x as u8)).collect())
+                .unwrap_or_default(),
             alpha: Alphabet::from_json(j.get("alphabet")?)?,
         })
     }
